@@ -694,8 +694,79 @@ def membership_and_helpers_stream(ctx, res):
             res.violate("C16:ref-path", "a helper field of an application-mode field is not named alike by enumeration, lookup and its reference path", dict(case, problems=bad[:5]))
 
 
+def read_hook_stream(ctx, res):
+    """application fields that override the documented read hook `__getval__` (a template expanded on read, a scaled number): dotted-path
+    lookup, chained attribute access and item access give the SAME value — the hook's — at every depth, before and after a command-line
+    override and with two configurations alive; a number field built directly on `NumberField` (or a subclass of it) is a scalar field
+    like `IntField`: it gets its command-line option"""
+    import ext
+    import cincoconfig as cc
+    X = ext.ns()
+    s = cc.Schema()
+    s.storage.root = cc.StringField(default="/srv")
+    s.storage.logs = X["TemplateField"](default="{root}/logs")
+    s.storage.cache.dir = X["TemplateField"](default="{root}/cache")
+    s.limits.cpu.percent = X["PercentField"](default=50)
+    s.limits.cpu.ratio = cc.NumberField(float, default=0.5)
+    s.limits.mem.mb = cc.NumberField(int, default=64)
+    s.price = X["DecimalField"](default=X["Decimal"]("9.99"))
+    a, b = s(), s()
+    b.storage.logs = "{root}/b-logs"
+    for label, cfg in (("first", a), ("second", b)):
+        case = {"stream": "read-hook", "configuration": label}
+        res.case(stable(case), kind="read-hook")
+        bad = []
+        for p, _, f in cc.get_all_fields(s):
+            if isinstance(f, cc.Schema):
+                continue
+            chained = cfg
+            for q in p.split("."):
+                chained = getattr(chained, q)
+            head, _, last = p.rpartition(".")
+            owner = cfg[head] if head else cfg
+            if not (cfg[p] == chained == owner[last]):
+                bad.append([p, repr(cfg[p]), repr(chained)])
+        if a.storage.logs != "/srv/logs" or b.storage.logs != "/srv/b-logs" or a["storage.cache.dir"] != "/srv/cache":
+            bad.append(["storage.logs", "the read hook's value is not what is read", repr(a["storage.cache.dir"])])
+        if bad:
+            res.violate("C16:dotted-vs-chained", "dotted-path lookup and chained attribute access disagree for a field that overrides the read hook __getval__", dict(case, problems=bad[:4]))
+    res.case("read-hook:number-options", kind="read-hook")
+    try:
+        parser = cc.generate_argparse_parser(s)
+        dests = sorted({x.dest for x in parser._actions if x.dest != "help"})
+        want = sorted(["storage.root", "storage.logs", "storage.cache.dir", "limits.cpu.percent", "limits.cpu.ratio", "limits.mem.mb"])
+        missing = [d for d in want if d not in dests]
+        if missing:
+            res.violate("C16:parser", "a scalar field (a number field used directly / subclassed, a string subclass) is not offered a command-line option", {"stream": "read-hook", "missing": missing})
+        else:
+            ns = parser.parse_args(["--limits-cpu-percent", "75", "--limits-mem-mb", "128", "--storage-logs", "{root}/cli"])
+            cc.cmdline_args_override(a, ns)
+            if (a.limits.cpu.percent, a["limits.mem.mb"], a.storage.logs, a["storage.logs"], a.limits.cpu.ratio) != (75, 128, "/srv/cli", "/srv/cli", 0.5):
+                res.violate("C16:override", "a command-line override of application-defined scalar fields did not set exactly the supplied options (read through their hooks)",
+                            {"stream": "read-hook", "tree": repr(a.to_tree())[:200]})
+    except BaseException as e:  # noqa
+        res.violate("C16:parser", "generating / applying the parser raised %s" % type(e).__name__, {"stream": "read-hook", "error": str(e)[:100]})
+    # each supplied option goes through its field's validation exactly once, in namespace order, against the configuration as the earlier options left it
+    import argparse
+    calls = []
+    t = cc.Schema()
+    t.pool.lo = cc.IntField(default=10)
+    t.pool.hi = cc.IntField(default=20, validator=lambda cfg, v: (calls.append(("hi", v, cfg.lo)), v)[1] if v >= cfg.lo else (_ for _ in ()).throw(ValueError("hi must be >= lo (%r)" % cfg.lo)))
+    t.pool.tag = cc.StringField(default="blue", validator=lambda cfg, v: (calls.append(("tag", v)), v)[1])
+    cfg = t()
+    res.case("read-hook:override-order", kind="read-hook")
+    try:
+        cc.cmdline_args_override(cfg, argparse.Namespace(**{"pool.lo": "1", "pool.hi": "5", "pool.tag": "green"}))
+        got = (cfg.pool.lo, cfg.pool.hi, cfg.pool.tag)
+    except Exception as e:  # noqa
+        got = "raised %s: %s" % (type(e).__name__, str(e)[:60])
+    if got != (1, 5, "green") or calls != [("hi", 5, 1), ("tag", "green")]:
+        res.violate("C16:override", "supplied options are not applied one by one through normal validation (each validated once, against the configuration as the earlier options left it)",
+                    {"stream": "read-hook", "got": repr(got), "validator_calls": repr(calls)})
+
 def run(ctx, n_quick=200, n_thorough=6000):
     res = Result()
+    guard(res, "C16", read_hook_stream, ctx, res)
     guard(res, "C16", membership_and_helpers_stream, ctx, res)
     guard(res, "C16", parser_from_configuration_stream, ctx, res)
     guard(res, "C16", config_type_mount_stream, ctx, res)
